@@ -42,7 +42,7 @@ Proof.
   exists c. repeat split; try (vm_compute; reflexivity).
   revert E. vm_compute. intros E. inversion E. reflexivity.
 Qed.
-(* ... the repaired translation of the same program (fix <commitmain>) is well typed *)
+(* ... the repaired translation of the same program (fix f929eb7) is well typed *)
 Lemma call_main_typing_witness_fixed_lemma :
   exists c, compile_prog call_main_witness = Fun2Core.Ok c /\ wt_core c = true /\ calls_main_prog call_main_witness = true.
 Proof.
